@@ -32,7 +32,8 @@
 (*   SkewIsCross, SkewAntisym, CrossAlgebra, TriadsRightHanded,            *)
 (*   RotCompose, RotOrthogonal, RotDetOne, RotInverseIsTranspose,          *)
 (*   RotAxisFixed, RotPeriodic, QuarterTurnIsCross, RotPreservesCross,     *)
-(*   DotRotIsRotOfCross, SezAxesAreGeographic, SezDirIsUnit                *)
+(*   DotRotIsRotOfCross, SezAxesAreGeographic, SezDirIsUnit,               *)
+(*   SezRotationIsRigid, WrapAlgebra                                       *)
 (* and the ASSUMEs CubeGroupHas24 / CubeGroupProper.                       *)
 (***************************************************************************)
 EXTENDS Integers, Sequences, FiniteSets, TLC, Json
@@ -131,7 +132,14 @@ SezDir(azq, elq) == IF elq = 0
 (*   start -PoseAxis-> axis -PoseTurns-> turns   (Rot, composition)        *)
 (*                 turns -PoseOmega-> dot        (DotRot; qb = 0 only)     *)
 (*   start -PoseSite-> site                      (ECEF -> SEZ matrix)      *)
-(*   start -PoseLook-> look                      (azimuth / elevation)     *)
+(*                 site -PoseSiteVec-> sitev     (integer states through   *)
+(*                                                ecef2sez / sez2ecef)     *)
+(*   start -PoseLook-> look                      (azimuth / elevation, a   *)
+(*                                                hair either side)        *)
+(*   start -PoseWrap-> wrap                      (maths.wrapAngle2Pi)      *)
+(* Every emitted vector is an INTEGER vector: the driver hands it to the   *)
+(* real functions as float64, int64, float32 arrays and as a list - the    *)
+(* expected value does not depend on the container.                        *)
 (***************************************************************************)
 VARIABLES pc, w, v, axis, qa, qb
 vars == <<pc, w, v, axis, qa, qb>>
@@ -156,11 +164,21 @@ PoseOmega == /\ pc = "turns" /\ qb = 0
 PoseSite == /\ pc = "start"
             /\ \E l \in -1..1, n \in 0..3 : qa' = l /\ qb' = n
             /\ pc' = "site" /\ UNCHANGED <<w, v, axis>>
+PoseSiteVec == /\ pc = "site"
+               /\ \E x \in Box : v' = x
+               /\ pc' = "sitev" /\ UNCHANGED <<w, axis, qa, qb>>
+\* axis = hair: the direction lies a hair (far below every tolerance) clockwise (+1) or
+\* counter-clockwise (-1) of the lattice azimuth, or exactly on it (0)
 PoseLook == /\ pc = "start"
-            /\ \E a \in 0..3, e \in -1..1 : qa' = a /\ qb' = e /\ (e # 0 => a = 0)
-            /\ pc' = "look" /\ UNCHANGED <<w, v, axis>>
+            /\ \E a \in 0..3, e \in -1..1, h \in -1..1 :
+                  qa' = a /\ qb' = e /\ axis' = h /\ (e # 0 => a = 0 /\ h = 0)
+            /\ pc' = "look" /\ UNCHANGED <<w, v>>
+\* an angle of qa quarter turns (any number of whole turns), a hair qb below / on / above it
+PoseWrap == /\ pc = "start"
+            /\ \E q \in Turns, h \in -1..1 : qa' = q /\ qb' = h
+            /\ pc' = "wrap" /\ UNCHANGED <<w, v, axis>>
 
-Next == PoseW \/ PoseV \/ PoseAxis \/ PoseTurns \/ PoseOmega \/ PoseSite \/ PoseLook
+Next == PoseW \/ PoseV \/ PoseAxis \/ PoseTurns \/ PoseOmega \/ PoseSite \/ PoseSiteVec \/ PoseLook \/ PoseWrap
 Spec == Init /\ [][Next]_vars
 
 \* ------------------------------------------------------------- properties
@@ -207,6 +225,18 @@ SezAxesAreGeographic ==
                     /\ MatVec(M, NorthEcef(qa, qb)) = Neg(SezSouth)
                     /\ M \in CubeGroup
 SezDirIsUnit == pc = "look" => Dot(SezDir(qa, qb), SezDir(qa, qb)) = 1
+\* the horizon rotation keeps lengths and angles of every (integer) state and its transpose undoes it
+SezRotationIsRigid ==
+  pc = "sitev" => LET M == SezMatrix(qa, qb)
+                  IN /\ Dot(MatVec(M, v), MatVec(M, v)) = Dot(v, v)
+                     /\ MatVec(Transpose(M), MatVec(M, v)) = v
+                     /\ MatVec(M, MatVec(Transpose(M), v)) = v
+\* angles on the circle in quarter turns: the representative in [0, 1 turn) as documented for
+\* maths.wrapAngle2Pi (range, idempotence, periodicity)
+Wrap4(q) == q % 4
+WrapAlgebra == pc = "wrap" => /\ Wrap4(qa) \in 0..3
+                              /\ Wrap4(Wrap4(qa)) = Wrap4(qa)
+                              /\ Wrap4(qa + 4) = Wrap4(qa) /\ Wrap4(qa - 4) = Wrap4(qa)
 
 \* --------------------------------------------- expected values for replay
 EmitVec == pc = "wv" =>
@@ -221,8 +251,15 @@ EmitSite == pc = "site" =>
   PrintT("SITE " \o ToJson([ql |-> qa, qn |-> qb, m |-> SezMatrix(qa, qb),
                             up |-> UpEcef(qa, qb), east |-> EastEcef(qa, qb),
                             north |-> NorthEcef(qa, qb)]))
+EmitSiteVec == pc = "sitev" =>
+  PrintT("SITEVEC " \o ToJson([ql |-> qa, qn |-> qb, v |-> v, mv |-> MatVec(SezMatrix(qa, qb), v),
+                               mtv |-> MatVec(Transpose(SezMatrix(qa, qb)), v)]))
+\* perp: the horizontal direction 90 deg clockwise of dir (towards increasing azimuth)
 EmitLook == pc = "look" =>
-  PrintT("LOOK " \o ToJson([azq |-> qa, elq |-> qb, dir |-> SezDir(qa, qb)]))
+  PrintT("LOOK " \o ToJson([azq |-> qa, elq |-> qb, hair |-> axis, dir |-> SezDir(qa, qb),
+                            perp |-> IF qb = 0 THEN SezDir(qa + 1, 0) ELSE Zero3]))
+EmitWrap == pc = "wrap" =>
+  PrintT("WRAP " \o ToJson([q |-> qa, hair |-> qb, r |-> Wrap4(qa)]))
 
 \* ---- constant values for the cfg files (cfg syntax has no negative numbers) ----
 TurnsQuick    == -4..5
